@@ -278,3 +278,58 @@ fn c17_gecko_len_1() {
 fn c17_gecko_len_2() {
 	gecko_case::<2>(513, 1024);
 }
+
+// @verif property=C01,C17 tier=thorough mem=24 timeout=3600
+// @encodes peppi::frame::immutable::Frame::write with one occupied port: PortData::{write_pre, write_post}, Data::{write_pre, write_post}, {Pre, Post}::write, event headers (code, frame id, port, follower flag)
+// @symbolic 700 frame id, Pre and Post payloads
+// @bound one frame row, one port (P3, no follower), version 1.0.0 (no Frame Start / Item / Frame End events)
+// @assume the port's column set is a typed stack object (Vec::from_raw_parts), built through the real readers and From conversions
+// @stub alloc::fmt::format = returns an empty String
+#[kani::proof]
+#[kani::unwind(10)]
+#[kani::stub(alloc::fmt::format, format_stub)]
+fn c01_frame_write_port_v1_0() {
+	use peppi::frame::immutable::{Data as IData, PortData as IPortData};
+	use peppi::frame::mutable::Data as MData;
+	use peppi::game::Port;
+	let v = Version(1, 0, 0);
+	let id: i32 = kani::any();
+	let pre: [u8; 52] = kani::any();
+	let post: [u8; 31] = kani::any();
+	let mut d = MData::with_capacity(0, v);
+	let ok = d.pre.read_push(&mut &pre[..], v).is_ok() && d.post.read_push(&mut &post[..], v).is_ok();
+	assert!(ok);
+	let leader: IData = d.into();
+	let mut store = core::mem::ManuallyDrop::new(IPortData { port: Port::P3, leader, follower: None });
+	let ports = unsafe { Vec::from_raw_parts(&mut *store as *mut IPortData, 1, 1) };
+	let frame = core::mem::ManuallyDrop::new(IFrame {
+		id: arrow2::array::PrimitiveArray::from_vec(vec![id]),
+		ports,
+		start: None,
+		end: None,
+		item_offset: None,
+		item: None,
+	});
+	const N: usize = 7 + 52 + 7 + 31;
+	let mut out = [0u8; N];
+	let mut w: &mut [u8] = &mut out[..];
+	let r = frame.write(&mut w, v);
+	assert!(r.is_ok());
+	assert!(w.len() == 0);
+	let idb = id.to_be_bytes();
+	let mut exp = [0u8; N];
+	let mut pos = 0;
+	put(&mut exp, &mut pos, &[0x37]);
+	put(&mut exp, &mut pos, &idb);
+	put(&mut exp, &mut pos, &[2, 0]);
+	put(&mut exp, &mut pos, &pre);
+	put(&mut exp, &mut pos, &[0x38]);
+	put(&mut exp, &mut pos, &idb);
+	put(&mut exp, &mut pos, &[2, 0]);
+	put(&mut exp, &mut pos, &post);
+	let i: usize = kani::any();
+	kani::assume(i < N);
+	assert!(out[i] == exp[i]);
+	kani::cover!(true, "reached");
+	forget(r);
+}
